@@ -117,10 +117,20 @@ func parseText(c Case, input string) (text string, rejected bool, pi *rt.PanicIn
 	pi = rt.Guard(func() {
 		if err := vm.Parse(input); err != nil {
 			text, rejected = err.Error(), true
+			// an error value is the host's to keep: a later evaluation on the same VM (another rejected text of the same
+			// length) does not change what it says
+			_ = vm.Parse(strings.Repeat(")", len(input)))
+			if again := err.Error(); again != text {
+				text = "error text changed after a later Parse on the same VM:\n--- when returned ---\n" + text + "\n--- after the later Parse ---\n" + again
+				laterChanged = true
+			}
 		}
 	})
 	return
 }
+
+// laterChanged: set by parseText when the kept error value rendered differently after a later Parse (reported by checkCase)
+var laterChanged bool
 
 func runText(c Case, input string) (text string, rejected bool, pi *rt.PanicInfo) {
 	vm, restore := newVMFor(c)
@@ -491,7 +501,11 @@ func checkCase(c Case, s *rt.Section) (fails []*rt.Failure, outcome string, info
 	if !utf8.ValidString(c.Input) {
 		return nil, "invalid-utf8-input", info
 	}
+	laterChanged = false
 	text, rejected, pi := parseText(c, c.Input)
+	if laterChanged {
+		return []*rt.Failure{s.NewFailure("error-value-stable", "api:error-text-changes-after-later-parse", c, text, "the text it had when Parse returned it")}, "rejected", info
+	}
 	if pi != nil {
 		return nil, "panic-in-parse", info
 	}
